@@ -77,28 +77,33 @@ def gen_lean():
             members = [(t.targets[0].id, t.value.value) for t in node.body
                        if isinstance(t, ast.Assign) and isinstance(t.targets[0], ast.Name) and isinstance(t.value, ast.Constant)
                        and isinstance(t.value.value, int)]
-        if isinstance(node, ast.Assign) and isinstance(node.targets[0], ast.Name) and node.targets[0].id == "_str_to_op":
-            if not isinstance(node.value, ast.Dict):
-                raise ValueError("_str_to_op is not a dict literal")
-            str_to_op = []
-            for k, v in zip(node.value.keys, node.value.values):
-                if not (isinstance(k, ast.Constant) and isinstance(v, ast.Attribute) and isinstance(v.value, ast.Name) and v.value.id == "CigarOp"):
-                    raise ValueError("unexpected _str_to_op entry")
-                str_to_op.append((k.value, v.attr))
+        # the symbol table: the module-level dict literal {one-character string: CigarOp.<member>} (whatever its private name)
+        if isinstance(node, ast.Assign) and isinstance(node.value, ast.Dict) and node.value.keys and all(
+                isinstance(k, ast.Constant) and isinstance(k.value, str) and len(k.value) == 1 and isinstance(v, ast.Attribute)
+                and isinstance(v.value, ast.Name) and v.value.id == "CigarOp" for k, v in zip(node.value.keys, node.value.values)):
+            if str_to_op is not None:
+                raise ValueError("two symbol tables in cigar.py")
+            str_to_op = [(k.value, v.attr) for k, v in zip(node.value.keys, node.value.values)]
         if isinstance(node, ast.FunctionDef) and node.name == "read_alignment_from_cigar":
             reader = _reader_table(node)
         if isinstance(node, ast.FunctionDef) and node.name == "write_alignment_to_cigar":
+            # the operation array: the local assigned from a call that has a CigarOp member as argument (np.full(..., CigarOp.MATCH, ...))
+            opvar = None
+            for sub in ast.walk(node):
+                if isinstance(sub, ast.Assign) and isinstance(sub.targets[0], ast.Name) and isinstance(sub.value, ast.Call):
+                    mem = [x for x in sub.value.args if isinstance(x, ast.Attribute) and isinstance(x.value, ast.Name) and x.value.id == "CigarOp"]
+                    if mem and opvar is None:
+                        opvar = sub.targets[0].id
+                        writer.append(("default", mem[0].attr))
+            if opvar is None:
+                raise ValueError("write_alignment_to_cigar: operation array not found")
             for sub in ast.walk(node):
                 if isinstance(sub, ast.Assign) and isinstance(sub.targets[0], ast.Subscript) and isinstance(sub.targets[0].value, ast.Name) \
-                        and sub.targets[0].value.id == "operations" and isinstance(sub.value, ast.Attribute):
-                    writer.append((ast.unparse(sub.targets[0].slice), sub.value.attr))
-                if isinstance(sub, ast.Assign) and isinstance(sub.targets[0], ast.Name) and sub.targets[0].id == "operations" \
-                        and isinstance(sub.value, ast.Call):
-                    for a in sub.value.args:
-                        if isinstance(a, ast.Attribute) and isinstance(a.value, ast.Name) and a.value.id == "CigarOp":
-                            writer.append(("default", a.attr))
-                if isinstance(sub, ast.Assign) and isinstance(sub.targets[0], ast.Name) and sub.targets[0].id == "clip_op" \
-                        and isinstance(sub.value, ast.IfExp):
+                        and sub.targets[0].value.id == opvar and isinstance(sub.value, ast.Attribute):
+                    writer.append((f"mask{len(writer)}", sub.value.attr))
+                # clip operation: `X = CigarOp.A if <public flag> else CigarOp.B`
+                if isinstance(sub, ast.Assign) and isinstance(sub.value, ast.IfExp) and isinstance(sub.value.body, ast.Attribute) \
+                        and isinstance(sub.value.orelse, ast.Attribute) and ast.unparse(sub.value.body.value) == "CigarOp":
                     clip = (ast.unparse(sub.value.test), sub.value.body.attr, sub.value.orelse.attr)
     if not members or not str_to_op or not reader or not writer or not clip:
         raise ValueError("cigar.py: CigarOp / _str_to_op / reader branches / writer assignments not found")
@@ -195,6 +200,45 @@ def _lpairs(ps):
     return "[" + ", ".join("(" + ", ".join(_lstr(str(y)) for y in p) + ")" for p in ps) + "]"
 
 
+def _rename(node, mapping):
+    """unparse with local names replaced (alpha-normalisation)"""
+    import copy
+    n = copy.deepcopy(node)
+    for x in ast.walk(n):
+        if isinstance(x, ast.Name) and x.id in mapping:
+            x.id = mapping[x.id]
+    return ast.unparse(n)
+
+
+def _callee(node):
+    return node.func.id if isinstance(node, ast.Call) and isinstance(node.func, ast.Name) else None
+
+
+def _module_fn(tree, name):
+    f = next((n for n in tree.body if isinstance(n, ast.FunctionDef) and n.name == name), None)
+    if f is None:
+        raise ValueError("helper " + str(name) + " not found")
+    return f
+
+
+def _gap_when_eq(fn):
+    """(gap character, True) when the function yields the 1-character string constant exactly when `x == -1`"""
+    for n in ast.walk(fn):
+        if isinstance(n, (ast.If, ast.IfExp)) and isinstance(n.test, ast.Compare) and len(n.test.ops) == 1 \
+                and ast.unparse(n.test.comparators[0]) == "-1" and isinstance(n.test.ops[0], (ast.Eq, ast.NotEq)):
+            body = n.body if isinstance(n.body, list) else [n.body]
+            orelse = n.orelse if isinstance(n.orelse, list) else [n.orelse]
+
+            def consts(nodes):
+                return [c.value for m in nodes for c in ast.walk(m) if isinstance(c, ast.Constant) and isinstance(c.value, str) and len(c.value) == 1]
+            t, e = consts(body), consts(orelse)
+            if isinstance(n.test.ops[0], ast.Eq) and len(t) == 1 and not e:
+                return t[0], True
+            if isinstance(n.test.ops[0], ast.NotEq) and len(e) == 1 and not t:
+                return e[0], True
+    raise ValueError(fn.name + ": gap character / test not found")
+
+
 def _gen_facts(cigar_tree):
     import re
 
@@ -207,77 +251,77 @@ def _gen_facts(cigar_tree):
             "def writerDefaults : List (String × String) := " + _lpairs(_defaults(w)),
             "def readerDefaults : List (String × String) := " + _lpairs(_defaults(r))]
     guards = _if_raising(w)
-    gl = []
+    kinds = []
     for t, nm in guards:
         if isinstance(t, ast.Compare):
-            gl.append(("cmp",) + _cmp(t) + (nm,))
+            c = _cmp(t)
+            kinds.append((c[1], c[2] if c[2] in ("0",) else "var", nm))
         else:
-            gl.append(("any", ast.unparse(t), "", "", nm))
-    # classify the numpy guards by what they test, independent of variable names
-    kinds = []
-    for g in gl:
-        if g[0] == "cmp":
-            kinds.append((g[2], g[3] if g[3] in ("0",) else "var", g[4]))
-        else:
-            txt = g[1]
+            txt = ast.unparse(t)
             if "np.diff" in txt:
                 m = re.search(r"np\.diff\(.*\)\s*!=\s*(-?\d+)", txt)
-                kinds.append(("diff-not", m.group(1) if m else "?", g[4]))
+                kinds.append(("diff-not", m.group(1) if m else "?", nm))
             elif "~" in txt:
-                kinds.append(("mask-and-not", "", g[4]))
+                kinds.append(("mask-and-not", "", nm))
             elif "&" in txt:
-                kinds.append(("mask-and", "", g[4]))
+                kinds.append(("mask-and", "", nm))
             else:
                 raise ValueError("unexpected guard in write_alignment_to_cigar: " + txt)
     out += ["/-- the refusing guards of `write_alignment_to_cigar` in source order: (kind/operator, constant, exception) -/",
             "def writerGuards : List (String × String × String) := " + _lpairs(kinds),
             "def readerRaises : List String := [" + ", ".join(_lstr(x) for x in _raises(r)) + "]"]
-    # clipped bases and terminal trimming
-    fc = _fn(cigar_tree, "_find_clipped_bases")
-    asg = {ast.unparse(n.targets[0]): n.value for n in ast.walk(fc) if isinstance(n, ast.Assign) and len(n.targets) == 1}
-    if "start_clip_length" not in asg or "end_clip_length" not in asg:
-        raise ValueError("_find_clipped_bases: clip lengths not found")
-    sc, ec = asg["start_clip_length"], asg["end_clip_length"]
+    # private helpers are found by how the writer calls them, not by name
+    trim_name = clip_name = print_name = None
+    for n in ast.walk(w):
+        if isinstance(n, ast.If) and ast.unparse(n.test) == "not include_terminal_gaps":
+            trim_name = next((_callee(x.value) for x in n.body if isinstance(x, ast.Assign)), None)
+        if isinstance(n, ast.Assign) and isinstance(n.targets[0], ast.Tuple) and len(n.targets[0].elts) == 2 and _callee(n.value):
+            clip_name = _callee(n.value)
+        if isinstance(n, ast.If) and ast.unparse(n.test) == "as_string":
+            print_name = next((_callee(x.value) for x in n.body if isinstance(x, (ast.Assign, ast.Return)) and _callee(x.value)), None)
+    fc, ft, fp = _module_fn(cigar_tree, clip_name), _module_fn(cigar_tree, trim_name), _module_fn(cigar_tree, print_name)
+    ret = next((n for n in ast.walk(fc) if isinstance(n, ast.Return)), None)
+    if ret is None or not (isinstance(ret.value, ast.Tuple) and len(ret.value.elts) == 2 and all(isinstance(e, ast.Name) for e in ret.value.elts)):
+        raise ValueError("clip helper: unexpected return")
+    asg = {n.targets[0].id: n.value for n in ast.walk(fc) if isinstance(n, ast.Assign) and isinstance(n.targets[0], ast.Name)}
+    sc, ec = asg.get(ret.value.elts[0].id), asg.get(ret.value.elts[1].id)
     if not (isinstance(sc, ast.Subscript) and isinstance(ec, ast.BinOp) and isinstance(ec.op, ast.Sub) and isinstance(ec.left, ast.BinOp)
             and isinstance(ec.left.op, ast.Sub) and isinstance(ec.left.left, ast.Call) and ast.unparse(ec.left.left.func) == "len"
             and isinstance(ec.left.right, ast.Subscript) and isinstance(ec.right, ast.Constant)):
-        raise ValueError("_find_clipped_bases: unexpected formula " + ast.unparse(ec))
+        raise ValueError("clip helper: unexpected formula")
     out += ["/-- `start_clip = seg_trace[startClipIndex]`, `end_clip = len(segment) - seg_trace[endClipIndex] - endClipMinus` -/",
             f"def startClipIndex : Int := {int(ast.literal_eval(sc.slice))}",
             f"def endClipIndex : Int := {int(ast.literal_eval(ec.left.right.slice))}",
             f"def endClipMinus : Int := {int(ec.right.value)}"]
-    ft = _fn(cigar_tree, "_remove_terminal_segment_gaps")
     ret = next(n for n in ast.walk(ft) if isinstance(n, ast.Return))
     sl = ret.value.slice if isinstance(ret.value, ast.Subscript) else None
     if not (isinstance(sl, ast.Slice) and isinstance(sl.lower, ast.Subscript) and isinstance(sl.upper, ast.BinOp) and isinstance(sl.upper.op, ast.Add)):
-        raise ValueError("_remove_terminal_segment_gaps: unexpected slice")
+        raise ValueError("trim helper: unexpected slice")
     out += ["/-- `alignment[pos[trimLower] : pos[trimUpper] + trimPlus]` -/",
             f"def trimLower : Int := {int(ast.literal_eval(sl.lower.slice))}",
             f"def trimUpper : Int := {int(ast.literal_eval(sl.upper.left.slice))}",
             f"def trimPlus : Int := {int(sl.upper.right.value)}"]
-    fp = _fn(cigar_tree, "_cigar_from_op_tuples")
     aug = next((n for n in ast.walk(fp) if isinstance(n, ast.AugAssign)), None)
     if aug is None or not isinstance(aug.value, ast.BinOp):
-        raise ValueError("_cigar_from_op_tuples: unexpected shape")
+        raise ValueError("printer helper: unexpected shape")
     out += ["/-- the printer appends `str(count)` first, then the symbol -/",
             f"def printerCountFirst : Bool := {'true' if ast.unparse(aug.value.left).startswith('str(') else 'false'}"]
-    # reader start values
-    rasg = {}
-    for n in r.body:
-        if isinstance(n, ast.Assign) and isinstance(n.targets[0], ast.Name):
-            rasg[n.targets[0].id] = ast.unparse(n.value)
-    out += ["def readerInit : List (String × String) := " + _lpairs([(k, rasg.get(k, "?")) for k in ("ref_pos", "seg_pos", "i")])]
+    out += ["def readerInit : List (String × String) := " + _lpairs(_reader_table.init)]
 
     # ---------------- alignment.py
     atree = ast.parse(open(os.path.join(paths.SRC, "biotite/sequence/align/alignment.py")).read())
     facts = []
-    gs = _fn(atree, "_gapped_str", "Alignment")
-    consts = [n.value for n in ast.walk(gs) if isinstance(n, ast.Constant) and isinstance(n.value, str) and n.value != ""]
-    cmpg = next((_cmp(n.test) for n in ast.walk(gs) if isinstance(n, ast.If)), None)
-    if consts != ["-"] and "-" not in consts or cmpg is None:
-        raise ValueError("_gapped_str: gap character / test not found")
-    facts.append(("gapped.gapChar", [c for c in consts if len(c) == 1][0]))
-    facts.append(("gapped.test", cmpg[1] + " " + cmpg[2]))
+    gs = _fn(atree, "_gapped_str", "Alignment") if any(isinstance(n, ast.FunctionDef) and n.name == "_gapped_str" for c in atree.body
+                                                        if isinstance(c, ast.ClassDef) and c.name == "Alignment" for n in c.body) else None
+    if gs is None:
+        # the private renderer is whatever `get_gapped_sequences` calls on self
+        gg = _fn(atree, "get_gapped_sequences", "Alignment")
+        nm = next((n.func.attr for n in ast.walk(gg) if isinstance(n, ast.Call) and isinstance(n.func, ast.Attribute)
+                   and ast.unparse(n.func.value) == "self"), None)
+        gs = _fn(atree, nm, "Alignment")
+    ch, _ = _gap_when_eq(gs)
+    facts.append(("gapped.gapChar", ch))
+    facts.append(("gapped.test", "gap iff index == -1"))
     tfs = _fn(atree, "trace_from_strings", "Alignment")
     g = _if_raising(tfs)
     if len(g) != 1:
@@ -291,68 +335,149 @@ def _gen_facts(cigar_tree):
     gc = _fn(atree, "get_codes")
     dts = sorted({ast.unparse(k.value) for n in ast.walk(gc) if isinstance(n, ast.Call) for k in n.keywords if k.arg == "dtype"})
     fills = sorted({ast.unparse(n.value) for n in ast.walk(gc) if isinstance(n, ast.Assign) and isinstance(n.targets[0], ast.Subscript)
-                    and ast.unparse(n.targets[0]) == "codes[i]"})
+                    and isinstance(n.value, ast.Call) and ast.unparse(n.value.func).startswith("np.int") and ast.unparse(n.value.args[0]) == "-1"})
     facts.append(("get_codes.dtype", ",".join(dts)))
     facts.append(("get_codes.gapFill", ",".join(fills)))
     gsym = _fn(atree, "get_symbols")
-    al = [ast.unparse(n.value) for n in ast.walk(gsym) if isinstance(n, ast.Assign) and ast.unparse(n.targets[0]) == "alphabet"]
     loop = next((n for n in gsym.body if isinstance(n, ast.For)), None)
-    in_loop = loop is not None and any(isinstance(n, ast.Assign) and ast.unparse(n.targets[0]) == "alphabet" for n in ast.walk(loop))
-    facts.append(("get_symbols.alphabet", (al[0] if al else "?") + ("|per-row" if in_loop else "|once")))
+    al_in = [n.value for n in ast.walk(loop) if isinstance(n, ast.Assign) and ast.unparse(n.value).endswith(".get_alphabet()")] if loop is not None else []
+    al_all = [n.value for n in ast.walk(gsym) if isinstance(n, ast.Assign) and ast.unparse(n.value).endswith(".get_alphabet()")]
+    if not al_all:
+        raise ValueError("get_symbols: alphabet not found")
+    lv = {loop.target.id: "k"} if loop is not None and isinstance(loop.target, ast.Name) else {}
+    facts.append(("get_symbols.alphabet", _rename(al_all[0], lv) + ("|per-row" if al_in else "|once")))
     for name in ("get_sequence_identity", "get_pairwise_sequence_identity"):
         f = _fn(atree, name)
         facts.append((name + ".defaults", ";".join(f"{a}={d}" for a, d in _defaults(f))))
         modes = [ast.unparse(n.test.comparators[0]) for n in ast.walk(f) if isinstance(n, ast.If) and isinstance(n.test, ast.Compare)
                  and ast.unparse(n.test.left) == "mode"]
         facts.append((name + ".modes", ",".join(dict.fromkeys(modes))))
-        gg = [(_cmp(t), nm) for t, nm in _if_raising(f) if isinstance(t, ast.Compare)]
-        facts.append((name + ".guards", ";".join(f"{c[0]} {c[1]} {c[2]} {nm}" for c, nm in gg)))
+        # the bounds: whatever the two names unpacked from find_terminal_gaps() are called
+        mp = {}
+        for n in ast.walk(f):
+            if isinstance(n, ast.Assign) and isinstance(n.targets[0], ast.Tuple) and len(n.targets[0].elts) == 2 and \
+                    isinstance(n.value, ast.Call) and ast.unparse(n.value.func) == "find_terminal_gaps":
+                mp = {n.targets[0].elts[0].id: "start", n.targets[0].elts[1].id: "stop"}
+        gg = []
+        for t, nm in _if_raising(f):
+            if isinstance(t, ast.Compare):
+                gg.append(f"{_rename(t.left, mp)} {_CMP[type(t.ops[0])]} {_rename(t.comparators[0], mp)} {nm}")
+        facts.append((name + ".guards", ";".join(gg)))
         facts.append((name + ".raises", ",".join(_raises(f))))
     gi = _fn(atree, "get_sequence_identity")
-    mt = next((ast.unparse(n.test) for n in ast.walk(gi) if isinstance(n, ast.If) and "unique_symbols" in ast.unparse(n.test)), "?")
-    facts.append(("get_sequence_identity.match", mt))
+    mt = next((n.test for n in ast.walk(gi) if isinstance(n, ast.If) and "np.unique" in ast.unparse(gi) and isinstance(n.test, ast.BoolOp)
+               and "len(" in ast.unparse(n.test)), None)
+    if mt is not None:
+        # the np.unique idiom: local names normalised
+        uq = next((n.targets[0].id for n in ast.walk(gi) if isinstance(n, ast.Assign) and isinstance(n.value, ast.Call)
+                   and ast.unparse(n.value.func) == "np.unique" and isinstance(n.targets[0], ast.Name)), None)
+        txt = _rename(mt, {uq: "unique"} if uq else {})
+        facts.append(("get_sequence_identity.match", "one symbol in the column and not -1" if txt == "len(unique) == 1 and unique[0] != -1" else txt))
+    else:
+        # vectorised form: all rows equal to the first row and the first row is not a gap
+        txt = " ".join(ast.unparse(n.value) for n in ast.walk(gi) if isinstance(n, ast.Assign))
+        m = re.search(r"np\.all\((\w+) == (\w+), axis=0\) & \(\2 != -1\)", txt)
+        first_ok = m is not None and any(isinstance(n, ast.Assign) and isinstance(n.targets[0], ast.Name) and n.targets[0].id == m.group(2)
+                                         and ast.unparse(n.value) == m.group(1) + "[0]" for n in ast.walk(gi))
+        facts.append(("get_sequence_identity.match", "one symbol in the column and not -1" if first_ok else "?"))
     sf = _fn(atree, "score")
     facts.append(("score.defaults", ";".join(f"{a}={d}" for a, d in _defaults(sf))))
     look = next((n for n in ast.walk(sf) if isinstance(n, ast.AugAssign) and isinstance(n.value, ast.Subscript)
-                 and ast.unparse(n.value.value) == "matrix"), None)
+                 and isinstance(n.value.slice, ast.Tuple) and len(n.value.slice.elts) == 2), None)
     if look is None:
         raise ValueError("score: matrix lookup not found")
-    names = [ast.unparse(e) for e in look.value.slice.elts]
-    sasg = {ast.unparse(n.targets[0]): ast.unparse(n.value) for n in ast.walk(sf) if isinstance(n, ast.Assign) and len(n.targets) == 1}
-    facts.append(("score.lookup", ",".join(sasg.get(x, x) for x in names)))
-    inner = [ast.unparse(n.iter) for n in ast.walk(sf) if isinstance(n, ast.For) and ast.unparse(n.target) == "j"]
-    facts.append(("score.innerRange", inner[0] if inner else "?"))
+    sasg = {n.targets[0].id: n.value for n in ast.walk(sf) if isinstance(n, ast.Assign) and isinstance(n.targets[0], ast.Name)}
+    idx = []
+    for e in look.value.slice.elts:
+        d = sasg.get(e.id) if isinstance(e, ast.Name) else e
+        if not (isinstance(d, ast.Subscript) and isinstance(d.slice, ast.Name)):
+            raise ValueError("score: unexpected lookup index " + ast.unparse(e))
+        idx.append(d.slice.id)
+    # which loop variable is the earlier row: nested `for j in range(i + 1, …)` or `for i, j in …combinations(range(…), 2)`
+    order = None
+    for n in ast.walk(sf):
+        if isinstance(n, ast.For) and isinstance(n.target, ast.Name) and isinstance(n.iter, ast.Call) and ast.unparse(n.iter.func) == "range" \
+                and len(n.iter.args) == 2 and isinstance(n.iter.args[0], ast.BinOp) and isinstance(n.iter.args[0].op, ast.Add) \
+                and ast.unparse(n.iter.args[0].right) == "1" and isinstance(n.iter.args[0].left, ast.Name):
+            order = [n.iter.args[0].left.id, n.target.id]
+        if isinstance(n, ast.For) and isinstance(n.target, ast.Tuple) and len(n.target.elts) == 2:
+            src = ast.unparse(n.iter)
+            defs = ast.unparse(sasg[n.iter.id]) if isinstance(n.iter, ast.Name) and n.iter.id in sasg else src
+            if re.search(r"combinations\(range\(.*\), 2\)", defs):
+                order = [n.target.elts[0].id, n.target.elts[1].id]
+    if order is None or set(idx) != set(order):
+        raise ValueError("score: pair loop not recognised")
+    facts.append(("score.lookup", "matrix[" + ",".join("earlier" if x == order[0] else "later" for x in idx) + "]"))
+    facts.append(("score.pairs", "every unordered pair once (earlier < later)"))
     facts.append(("score.raises", ",".join(_raises(sf))))
-    gapadd = [ast.unparse(n.value) for n in ast.walk(sf) if isinstance(n, ast.AugAssign) and ast.unparse(n.value) in ("gap_ext", "gap_open")]
+    gmap = {}
+    for k, v in sasg.items():
+        if ast.unparse(v) == "gap_penalty[0]":
+            gmap[k] = "open"
+        if ast.unparse(v) == "gap_penalty[1]":
+            gmap[k] = "ext"
+    gapadd = [gmap.get(ast.unparse(n.value), "?") for n in ast.walk(sf) if isinstance(n, ast.AugAssign) and isinstance(n.value, ast.Name)
+              and n.value.id in gmap]
     facts.append(("score.gapOrder", ",".join(gapadd)))
     ftg = _fn(atree, "find_terminal_gaps")
-    src = ast.unparse(ftg)
-    m1 = re.search(r"firsts = \[pos\[(-?\d+)\] if len\(pos\) > (\d+) else (.+?) for", src)
-    m2 = re.search(r"lasts = \[pos\[(-?\d+)\] if len\(pos\) > (\d+) else (.+?) for", src)
-    m3 = re.search(r"return \(?np\.(\w+)\(firsts\)\.item\(\), np\.(\w+)\(lasts\)\.item\(\) \+ (\d+)\)?", src)
-    if not (m1 and m2 and m3):
+    comps = []
+    for n in ast.walk(ftg):
+        if isinstance(n, ast.Assign) and isinstance(n.value, ast.ListComp) and isinstance(n.value.elt, ast.IfExp) and isinstance(n.targets[0], ast.Name):
+            e = n.value.elt
+            if not (isinstance(e.body, ast.Subscript) and isinstance(e.test, ast.Compare) and ast.unparse(e.test.left).startswith("len(")):
+                raise ValueError("find_terminal_gaps: unexpected comprehension")
+            els = "-1" if ast.unparse(e.orelse) == "-1" else "ncols" if ast.unparse(e.orelse).endswith(".shape[0]") else ast.unparse(e.orelse)
+            comps.append((n.lineno, n.targets[0].id, f"pos[{ast.unparse(e.body.slice)}] if len {_CMP[type(e.test.ops[0])]} {ast.unparse(e.test.comparators[0])} else {els}"))
+    retn = next((n for n in ast.walk(ftg) if isinstance(n, ast.Return)), None)
+    if len(comps) != 2 or retn is None or not isinstance(retn.value, ast.Tuple):
         raise ValueError("find_terminal_gaps: unexpected shape")
-    facts.append(("find_terminal_gaps.firsts", f"pos[{m1.group(1)}] if len>{m1.group(2)} else {m1.group(3)}"))
-    facts.append(("find_terminal_gaps.lasts", f"pos[{m2.group(1)}] if len>{m2.group(2)} else {m2.group(3)}"))
-    facts.append(("find_terminal_gaps.result", f"{m3.group(1)},{m3.group(2)}+{m3.group(3)}"))
+    by = {nm: txt for _, nm, txt in comps}
+    res = []
+    for e in retn.value.elts:
+        plus = "0"
+        if isinstance(e, ast.BinOp) and isinstance(e.op, ast.Add):
+            plus, e = ast.unparse(e.right), e.left
+        m = re.match(r"np\.(\w+)\((\w+)\)\.item\(\)$", ast.unparse(e))
+        if not m or m.group(2) not in by:
+            raise ValueError("find_terminal_gaps: unexpected return")
+        res.append(f"{m.group(1)}({by[m.group(2)]})+{plus}")
+    facts.append(("find_terminal_gaps.start", res[0]))
+    facts.append(("find_terminal_gaps.stop", res[1]))
     rt = _fn(atree, "remove_terminal_gaps")
-    g = _if_raising(rt)
-    facts.append(("remove_terminal_gaps.guard", ";".join(" ".join(_cmp(t)) + " " + nm for t, nm in g)))
+    mp = {}
+    for n in ast.walk(rt):
+        if isinstance(n, ast.Assign) and isinstance(n.targets[0], ast.Tuple) and len(n.targets[0].elts) == 2:
+            mp = {n.targets[0].elts[0].id: "start", n.targets[0].elts[1].id: "stop"}
+    facts.append(("remove_terminal_gaps.guard", ";".join(f"{_rename(t.left, mp)} {_CMP[type(t.ops[0])]} {_rename(t.comparators[0], mp)} {nm}"
+                                                         for t, nm in _if_raising(rt) if isinstance(t, ast.Compare))))
     rg = _fn(atree, "remove_gaps")
-    facts.append(("remove_gaps.mask", ast.unparse(next(n.value for n in ast.walk(rg) if isinstance(n, ast.Assign)))))
+    mtxt = ast.unparse(next(n.value for n in ast.walk(rg) if isinstance(n, ast.Assign)))
+    if re.fullmatch(r"\(alignment\.trace != -1\)\.all\(axis=1\)", mtxt) or re.fullmatch(r"~\(alignment\.trace == -1\)\.any\(axis=1\)", mtxt):
+        mtxt = "columns without any -1"
+    facts.append(("remove_gaps.mask", mtxt))
     gi2 = _fn(atree, "__getitem__", "Alignment")
-    facts.append(("getitem.raises", ",".join(_raises(gi2))))
-    facts.append(("getitem.integralChecks", str(sum(1 for n in ast.walk(gi2) if isinstance(n, ast.Call) and ast.unparse(n.func) == "isinstance"
-                                                   and "numbers.Integral" in ast.unparse(n.args[1])))))
+    facts.append(("getitem.raises", ",".join(sorted(set(_raises(gi2))))))
+    n_int = sum(1 for n in ast.walk(gi2) if isinstance(n, ast.Call) and ast.unparse(n.func) == "isinstance" and "numbers.Integral" in ast.unparse(n.args[1]))
+    n_plain = sum(1 for n in ast.walk(gi2) if isinstance(n, ast.Call) and ast.unparse(n.func) == "isinstance" and ast.unparse(n.args[1]) in ("int", "(int,)"))
+    facts.append(("getitem.integerTest", "numbers.Integral in the 1-D and the 2-D branch" if n_int >= 2 and n_plain == 0 else f"{n_int} Integral / {n_plain} int"))
     # ---------------- fasta/convert.py
     ctree = ast.parse(open(os.path.join(paths.SRC, "biotite/sequence/io/fasta/convert.py")).read())
     ga, sa = _fn(ctree, "get_alignment"), _fn(ctree, "set_alignment")
     facts.append(("get_alignment.defaults", ";".join(f"{a}={d}" for a, d in _defaults(ga))))
-    reps = [ast.unparse(n) for n in ast.walk(ga) if isinstance(n, ast.Call) and ast.unparse(n.func).endswith(".replace")]
+    reps = []
+    for n in ast.walk(ga):
+        if isinstance(n, ast.Call) and isinstance(n.func, ast.Attribute) and n.func.attr == "replace" and len(n.args) == 2:
+            reps.append(",".join(ast.unparse(x) if isinstance(x, ast.Constant) else "char" for x in n.args))
     facts.append(("get_alignment.replace", ";".join(sorted(set(reps)))))
-    loops = [ast.unparse(n.iter) for n in ast.walk(ga) if isinstance(n, ast.For)]
-    facts.append(("get_alignment.loops", ";".join(loops)))
-    facts.append(("set_alignment.guard", ";".join(" ".join(_cmp(t)) + " " + nm for t, nm in _if_raising(sa))))
+    outer = next((n for n in ga.body if isinstance(n, ast.For)), None)
+    inner = next((n for n in ast.walk(outer) if isinstance(n, ast.For) and n is not outer), None) if outer is not None else None
+    facts.append(("get_alignment.loops", "outer=" + (ast.unparse(outer.iter) if outer is not None and ast.unparse(outer.iter) == "additional_gap_chars" else "strings")
+                  + ";inner=" + ("additional_gap_chars" if inner is not None and ast.unparse(inner.iter) == "additional_gap_chars" else "strings")))
+    sg = _if_raising(sa)
+    if len(sg) != 1 or not isinstance(sg[0][0], ast.Compare):
+        raise ValueError("set_alignment: expected one refusing guard")
+    sides = sorted(["len(seq_names)" if "seq_names" in ast.unparse(x) else "len(rows)" for x in (sg[0][0].left, sg[0][0].comparators[0])])
+    facts.append(("set_alignment.guard", f"{sides[0]} {_CMP[type(sg[0][0].ops[0])]} {sides[1]} {sg[0][1]}"))
     # ---------------- multiple.pyx (text; the .pyx <-> .c <-> .so tie guarantees the binary matches it)
     px = open(os.path.join(paths.SRC, "biotite/sequence/align/multiple.pyx")).read()
 
@@ -398,29 +523,67 @@ def _gen_facts(cigar_tree):
 
 
 def _reader_table(fn):
-    loop = next((n for n in ast.walk(fn) if isinstance(n, ast.For) and ast.unparse(n.target) == "(op, length)"), None)
+    """branches of the reader loop, found by structure: the `for (op, length) in …` loop whose body re-binds `op = CigarOp(op)`;
+    cursors, row counter, mask and trace variables are identified by how they are initialised and used, not by name"""
+    loop = None
+    for n in ast.walk(fn):
+        if isinstance(n, ast.For) and isinstance(n.target, ast.Tuple) and len(n.target.elts) == 2 and any(
+                isinstance(b, ast.Assign) and isinstance(b.value, ast.Call) and ast.unparse(b.value.func) == "CigarOp" for b in n.body):
+            loop = n
     if loop is None:
         raise ValueError("reader loop not found")
+    length = loop.target.elts[1].id
+    params = [a.arg for a in fn.args.args]
+    init = {}
+    for n in fn.body:
+        if isinstance(n, ast.Assign) and isinstance(n.targets[0], ast.Name) and n.targets[0].id not in init:
+            init[n.targets[0].id] = n.value
+    ref_cur = [k for k, v in init.items() if isinstance(v, ast.Name) and v.id == "position"]
+    zeros = [k for k, v in init.items() if isinstance(v, ast.Constant) and v.value == 0]
+    top_aug = [b.target.id for b in loop.body if isinstance(b, ast.AugAssign) and isinstance(b.target, ast.Name)]
+    rowvar = [z for z in zeros if z in top_aug]
+    seg_cur = [z for z in zeros if z not in top_aug]
+    mask = [k for k, v in init.items() if isinstance(v, ast.Call) and ast.unparse(v.func) == "np.ones"]
+    trace = [k for k, v in init.items() if isinstance(v, ast.Call) and ast.unparse(v.func) == "np.zeros"]
+    if not (len(ref_cur) == 1 and len(rowvar) == 1 and len(seg_cur) == 1 and len(mask) == 1 and len(trace) >= 1 and "position" in params):
+        raise ValueError("reader: cursors / row counter / mask not identified")
+    ref_cur, seg_cur, rowvar, mask = ref_cur[0], seg_cur[0], rowvar[0], mask[0]
+    tracevars = set(trace)
     chain = next((n for n in loop.body if isinstance(n, ast.If)), None)
     rows = []
     while chain is not None:
         test = chain.test
-        names = []
         if isinstance(test, ast.Compare) and isinstance(test.ops[0], ast.In):
             names = [e.attr for e in test.comparators[0].elts]
         elif isinstance(test, ast.Compare) and isinstance(test.ops[0], ast.Eq):
             names = [test.comparators[0].attr]
         else:
             raise ValueError("unexpected reader test " + ast.unparse(test))
-        src = [ast.unparse(s) for s in chain.body]
-        ref_adv = any(s.startswith("ref_pos += length") for s in src)
-        seg_adv = any(s.startswith("seg_pos += length") for s in src)
-        clipped = any(s.startswith("clip_mask[") and s.endswith("= False") for s in src)
-        ref_gap = any(s.startswith("trace[i:i + length, 0] = -1") for s in src)
-        seg_gap = any(s.startswith("trace[i:i + length, 1] = -1") for s in src)
-        known = [s for s in src if s.startswith(("ref_pos +=", "seg_pos +=", "clip_mask[", "trace[i:i + length, 0] =", "trace[i:i + length, 1] ="))]
-        if len(known) != len(src):
-            raise ValueError("unexpected statement in reader branch: " + "; ".join(src))
+        ref_adv = seg_adv = clipped = ref_gap = seg_gap = False
+        for st in chain.body:
+            ok = False
+            if isinstance(st, ast.AugAssign) and isinstance(st.op, ast.Add) and isinstance(st.target, ast.Name) and ast.unparse(st.value) == length:
+                if st.target.id == ref_cur:
+                    ref_adv = ok = True
+                elif st.target.id == seg_cur:
+                    seg_adv = ok = True
+            elif isinstance(st, ast.Assign) and isinstance(st.targets[0], ast.Subscript) and isinstance(st.targets[0].value, ast.Name):
+                tgt = st.targets[0]
+                if tgt.value.id == mask and isinstance(st.value, ast.Constant) and st.value.value is False:
+                    clipped = ok = True
+                elif tgt.value.id in tracevars and isinstance(tgt.slice, ast.Tuple) and isinstance(tgt.slice.elts[-1], ast.Constant):
+                    col = tgt.slice.elts[-1].value
+                    is_gap = ast.unparse(st.value) == "-1"
+                    is_run = isinstance(st.value, ast.Call) and ast.unparse(st.value.func) == "np.arange" and \
+                        ast.unparse(st.value.args[0]) == (ref_cur if col == 0 else seg_cur)
+                    if col in (0, 1) and (is_gap or is_run):
+                        ok = True
+                        if is_gap and col == 0:
+                            ref_gap = True
+                        if is_gap and col == 1:
+                            seg_gap = True
+            if not ok:
+                raise ValueError("unexpected statement in reader branch: " + ast.unparse(st))
         for n in names:
             rows.append((n, ref_adv, seg_adv, clipped, ref_gap, seg_gap))
         nxt = chain.orelse
@@ -430,6 +593,7 @@ def _reader_table(fn):
             if not (len(nxt) == 1 and isinstance(nxt[0], ast.Raise)):
                 raise ValueError("reader chain does not end in raise")
             chain = None
+    _reader_table.init = [("refCursor", ast.unparse(init[ref_cur])), ("segCursor", ast.unparse(init[seg_cur])), ("row", ast.unparse(init[rowvar]))]
     return rows
 
 
@@ -1467,7 +1631,10 @@ def _dist_call(case):
     if len(calls) < 3:
         return {"outcome": outcome, "line": None}
     (saa, _), (s, tr), (sbb, _) = calls[0], calls[1], calls[2]
-    n_open, n_ext = M._count_gaps(tr, case["tp"])
+    counter = getattr(M, "_count_gaps", None)
+    if counter is None:       # the private helper was renamed: no quantities for the exact model (the oracle still judges the outcome)
+        return {"outcome": outcome, "line": None}
+    n_open, n_ext = counter(tr, case["tp"])
     sm = matrix.score_matrix()
     ca = np.bincount(np.array(case["seqs"][0], dtype=int), minlength=k)
     cb = np.bincount(np.array(case["seqs"][1], dtype=int), minlength=k)
